@@ -79,10 +79,105 @@ fn h(s: String) -> String {
 }
 
 /// run every function on every input; returns key -> hash of the bit-exact Debug serialisation
+/// deterministic irregular (non-dyadic) lon/lat-like values: sums over them are sensitive to the order of the additions
+fn irregular(n: usize, salt: u64) -> Vec<(f64, f64)> {
+    let mut s = 0x9E3779B97F4A7C15u64 ^ salt.wrapping_mul(0xD1B54A32D192ED03);
+    (0..n)
+        .map(|_| {
+            s = s.wrapping_mul(6364136223846793005).wrapping_add(1442695040888963407);
+            let a = ((s >> 11) as f64) / ((1u64 << 53) as f64);
+            s = s.wrapping_mul(6364136223846793005).wrapping_add(1442695040888963407);
+            let b = ((s >> 11) as f64) / ((1u64 << 53) as f64);
+            (a * 300.0 - 150.0, b * 120.0 - 60.0)
+        })
+        .collect()
+}
+/// collections with many members (16, 64, 257: around any plausible "go parallel from here" threshold) of irregular size and position
+fn many_members(n: usize) -> (MultiPolygon<f64>, MultiLineString<f64>, MultiPoint<f64>) {
+    let c = irregular(n, n as u64);
+    let d = irregular(n, 1000 + n as u64);
+    let mp = MultiPolygon(
+        c.iter()
+            .zip(&d)
+            .map(|(&(x, y), &(u, v))| {
+                let (w, hgt) = (0.01 + u.abs() / 400.0, 0.01 + v.abs() / 300.0);
+                Polygon::new(LineString::from(vec![(x, y), (x + w, y + hgt / 3.0), (x + w * 0.7, y + hgt), (x - w / 5.0, y + hgt * 0.6), (x, y)]), vec![])
+            })
+            .collect(),
+    );
+    let mls = MultiLineString(c.iter().zip(&d).map(|(&(x, y), &(u, v))| LineString::from(vec![(x, y), (x + u / 200.0, y + v / 150.0), (x + u / 90.0, y - v / 300.0)])).collect());
+    let mpt = MultiPoint(c.iter().map(|&(x, y)| Point::new(x, y)).collect());
+    (mp, mls, mpt)
+}
+
 pub fn run_all(inp: &Inputs, reps: usize) -> Vec<(String, String)> {
     let mut out = vec![];
     let mut rec = |k: String, v: String| out.push((k, h(v)));
+    // prepared geometries live across the repetitions: the same call on the same prepared geometry, before and after other calls on it
+    let prep_inputs: Vec<(String, Geometry<f64>, Vec<Geometry<f64>>)> = {
+        let sqg = Geometry::Polygon(sq(0.0, 0.0, 4.0));
+        let partners: Vec<Geometry<f64>> = vec![
+            Geometry::Point(Point::new(1.0, 1.0)),
+            Geometry::Polygon(sq(4.0, 0.0, 2.0)),
+            Geometry::Polygon(sq(2.0, 2.0, 4.0)),
+            Geometry::Polygon(sq(-1.0, -1.0, 9.0)),
+            Geometry::LineString(LineString::from(vec![(-1.0, 2.0), (5.0, 2.0)])),
+            Geometry::LineString(LineString::from(vec![(0.0, 0.0), (4.0, 0.0)])),
+            Geometry::Polygon(sq(1.0, 1.0, 1.0)),
+            Geometry::Polygon(sq(10.0, 10.0, 1.0)),
+            // partners that leave intersection points in the interior of the prepared geometry's edges: sharing part of an edge, overlapping a corner
+            Geometry::Rect(Rect::new((-3.0, 1.0), (0.0, 5.0))),
+            Geometry::Rect(Rect::new((0.0, 3.0), (6.0, 4.0))),
+            Geometry::Rect(Rect::new((1.0, -2.0), (2.0, 0.0))),
+            Geometry::Rect(Rect::new((3.0, -1.0), (7.0, 1.0))),
+            Geometry::LineString(LineString::from(vec![(0.0, 1.5), (0.0, 2.5), (4.0, 3.5)])),
+            Geometry::Rect(Rect::new((-3.0, 1.0), (0.0, 5.0))),
+        ];
+        let mpg = Geometry::MultiPolygon(MultiPolygon(vec![sq(0.0, 0.0, 2.0), Polygon::new(LineString::from(vec![(2.0, 1.0), (4.0, 0.0), (4.0, 2.0), (2.0, 1.0)]), vec![])]));
+        let dn = Geometry::Polygon(donut(0.0, 0.0, 2));
+        vec![("square".into(), sqg, partners.clone()), ("touching-multipolygon".into(), mpg, partners.clone()), ("donut".into(), dn, partners)]
+    };
+    let many: Vec<(usize, (MultiPolygon<f64>, MultiLineString<f64>, MultiPoint<f64>))> = [16usize, 64, 257].iter().map(|&n| (n, many_members(n))).collect();
     for rep in 0..reps {
+        // the same relate call on the same prepared geometry, first on a fresh one ("rep0") and again after every other partner has been
+        // related to it in both operand positions ("rep1"): equal input, different history
+        if rep == 0 {
+            for (name, g, partners) in &prep_inputs {
+                for (i, x) in partners.iter().enumerate() {
+                    let pg = geo::PreparedGeometry::from(g.clone());
+                    rec(format!("prepared.relate(x) fresh vs after other calls|{}|partner{}|rep0", name, i), format!("{:?}", pg.relate(x)));
+                    let pg2 = geo::PreparedGeometry::from(g.clone());
+                    rec(format!("x.relate(prepared) fresh vs after other calls|{}|partner{}|rep0", name, i), format!("{:?}", x.relate(&pg2)));
+                    for (j, y) in partners.iter().enumerate() {
+                        if j != i {
+                            let _ = (pg.relate(y), y.relate(&pg), pg2.relate(y), y.relate(&pg2));
+                        }
+                    }
+                    rec(format!("prepared.relate(x) fresh vs after other calls|{}|partner{}|rep1", name, i), format!("{:?}", pg.relate(x)));
+                    rec(format!("x.relate(prepared) fresh vs after other calls|{}|partner{}|rep1", name, i), format!("{:?}", x.relate(&pg2)));
+                }
+            }
+        }
+        // scalar measures and reductions over collections with many members (a parallel or reordered reduction shows in the low bits)
+        for (n, (mp, mls, mpt)) in &many {
+            use geo::algorithm::line_measures::{Euclidean, Geodesic, Haversine, Length, Rhumb};
+            let tag = format!("many{}", n);
+            rec(format!("area|{}|rep{}", tag, rep), format!("{:?} {:?}", mp.signed_area(), mp.unsigned_area()));
+            rec(format!("centroid|{}|rep{}", tag, rep), format!("{:?} {:?} {:?}", mp.centroid(), mls.centroid(), mpt.centroid()));
+            rec(format!("geodesic_area|{}|rep{}", tag, rep), format!("{:?} {:?} {:?} {:?}", mp.geodesic_area_signed(), mp.geodesic_area_unsigned(), mp.geodesic_perimeter(), mp.geodesic_perimeter_area_signed()));
+            rec(format!("chamberlain_duquette_area|{}|rep{}", tag, rep), format!("{:?} {:?}", mp.chamberlain_duquette_signed_area(), mp.chamberlain_duquette_unsigned_area()));
+            rec(format!("length|{}|rep{}", tag, rep), format!("{:?} {:?} {:?} {:?}", Euclidean.length(mls), Haversine.length(mls), Geodesic.length(mls), Rhumb.length(mls)));
+            rec(format!("bounding_rect+extremes|{}|rep{}", tag, rep), format!("{:?} {:?} {:?}", mp.bounding_rect(), mls.bounding_rect(), mp.extremes()));
+            rec(format!("interior_point|{}|rep{}", tag, rep), format!("{:?} {:?} {:?}", mp.interior_point(), mls.interior_point(), mpt.interior_point()));
+            rec(format!("convex_hull+mrr|{}|rep{}", tag, rep), format!("{:?} {:?}", mp.convex_hull(), mpt.minimum_rotated_rect()));
+            rec(format!("closest_point+distance|{}|rep{}", tag, rep), format!("{:?} {:?} {:?}", mp.closest_point(&Point::new(0.3, 0.7)), mls.closest_point(&Point::new(0.3, 0.7)), Euclidean.distance(mp, mls)));
+            rec(format!("simplify+densify|{}|rep{}", tag, rep), format!("{:?} {:?}", mls.simplify(0.05), Euclidean.densify(mls, 0.4)));
+            rec(format!("hausdorff|{}|rep{}", tag, rep), format!("{:?}", mls.hausdorff_distance(mpt)));
+            if *n <= 64 {
+                rec(format!("relate+is_valid|{}|rep{}", tag, rep), format!("{:?} {:?}", mp.relate(mls), geo::algorithm::Validation::is_valid(mp)));
+                rec(format!("unary_union|{}|rep{}", tag, rep), format!("{:?}", unary_union(&mp.0)));
+            }
+        }
         for (name, a, b) in &inp.multis {
             let big = name.starts_with("comb");
             rec(format!("intersection|{}|rep{}", name, rep), format!("{:?}", a.intersection(b)));
